@@ -181,6 +181,7 @@ func (p Pattern) events(g *Gen) []*ref.AEvent {
 var wideEvents = func(g *Gen, p Pattern) []*ref.AEvent { panic("wide table not available") }
 
 func runC01(r *chk.Run) {
+	RunTwoStreamsFirst(r)
 	depth := 3
 	if r.Thorough() {
 		depth = 5
@@ -313,7 +314,6 @@ func runC01(r *chk.Run) {
 	// format descriptions of many server versions
 	RunServerVersions(r)
 	RunChecksumChange(r)
-	RunNested(r)
 	// events whose leading bytes take every value, through the packet reader
 	RunHeaderBytes(r)
 	// histories that are large in one dimension each
